@@ -57,6 +57,10 @@
                                                               "all input orders" includes the long sorted and
                                                               reversed ones, on which two plain recursive calls
                                                               went length-1 deep: sort_depth_two_calls_example),
+                                                              sort_as_coded_depth_is_printed_depth,
+                                                              sort_printed_depth_log (the depth the model driver
+                                                              prints, compared with the frames the harness counts,
+                                                              is the depth of the transcription and logarithmic),
                                                               sort_as_coded_is_value_sort (it computes the
                                                               value-level model the drivers run),
                                                               sort_sorted_permutation (any key order),
@@ -480,6 +484,18 @@ Theorem sort_as_coded_depth_log : forall (key : Z -> Z) (l r : list Z) (d : nat)
 Proof. exact sort_ptr_depth_log. Qed.
 Print Assumptions sort_as_coded_depth_log.
 
+(* what the correspondence compares: the model driver prints sort_depth next to the result of every sort, the
+   harness the number of distinct frames of QuickSort::sort that were live during the call *)
+Theorem sort_as_coded_depth_is_printed_depth : forall (key : Z -> Z) (l r : list Z) (d : nat), (2 <= length l)%nat ->
+    qs_sort key (length l) 0 (length l - 1) l = Some (r, d) -> d = sort_depth key l.
+Proof. exact sort_ptr_depth_is_sort_depth. Qed.
+Print Assumptions sort_as_coded_depth_is_printed_depth.
+
+Theorem sort_printed_depth_log : forall (key : Z -> Z) (l : list Z),
+    (2 ^ sort_depth key l <= Nat.max 1 (length l))%nat.
+Proof. exact sort_depth_pow. Qed.
+Print Assumptions sort_printed_depth_log.
+
 Example sort_as_coded_nonvacuous :
   sort_ptr key_full [5; 2; 9; 2; 7; 1; 8] = [1; 2; 2; 5; 7; 8; 9]
   /\ sort_ptr key_kv [33; 17; 34; 1; 18; 35] = [1; 18; 17; 33; 34; 35]
@@ -494,6 +510,17 @@ Example sort_depth_two_calls_example :
   let up := map Z.of_nat (seq 0 64) in
   (qdepth key_full 64 up, qdepth key_full 64 (rev up), qdepth2 key_full 64 up, qdepth2 key_full 64 (rev up))
   = (1, 1, 63, 63)%nat.
+Proof. vm_compute. reflexivity. Qed.
+
+(* the orders of the stream `sort_adversarial` - second largest first, largest last, recursively (every round
+   leaves all but two values on the left) and its mirror (second smallest, smallest, recursively: all but two
+   on the right): one live frame as coded, because the long side is continued in the same frame; with two plain
+   recursive calls half the length *)
+Example sort_depth_adversarial_example :
+  (sort_depth key_full [8; 1; 3; 2; 5; 4; 7; 6; 9], qdepth2 key_full 9 [8; 1; 3; 2; 5; 4; 7; 6; 9],
+   sort_depth key_full [2; 1; 4; 3; 6; 5; 8; 7; 9], qdepth2 key_full 9 [2; 1; 4; 3; 6; 5; 8; 7; 9],
+   sort_depth key_full [5; 2; 9; 2; 7; 1; 8; 3; 3; 6; 0; 4], sort_depth key_full [4], sort_depth key_full [])
+  = (1, 4, 1, 4, 2, 0, 0)%nat.
 Proof. vm_compute. reflexivity. Qed.
 
 (* ---- List / PoolList relinking at the level of pointers (SeqLinkModel) --------------------------- *)
